@@ -269,6 +269,7 @@ func (in *Interp) resetPath() {
 	in.nondetInfo = nil
 	in.observes = nil
 	in.side = map[*Cell]interface{}{}
+	in.uniqPath = nil
 	in.now = nil
 	in.timers = nil
 	in.steps = 0
